@@ -47,8 +47,16 @@ def feq(a, b, rtol=1e-12):
     return abs(a - b) <= rtol * max(abs(a), abs(b))
 
 
-def block_matches_header(block, header_kind, header):
+def block_matches_header(block, header_kind, header, exact=False):
     """Physical identity of an archived part vs a reference block."""
+    if exact:
+        eq = lambda a, b: a == b  # noqa: E731
+    else:
+        eq = feq
+    return _bmh(block, header_kind, header, eq)
+
+
+def _bmh(block, header_kind, header, feq):
     if block[0] == "E":
         if header_kind != "E":
             return False
